@@ -429,7 +429,7 @@ Proof.
     { apply IH2; [reflexivity|]. rewrite app_length in Hlen. lia. }
     destruct ts1 as [|t1 ts1']; [destruct S1|].
     destruct t1; try (destruct S1; fail); simpl app in *;
-      rewrite E1; cbn [pbind]. Show.
+      rewrite E1; cbn [pbind]; rewrite E2; cbn [pbind]; rewrite Hap; reflexivity.
   - (* DAnil *) intros acc r m Hr _. simpl. apply loop_stop_args. exact Hr.
   - (* DAcons *) intros acc ts1 ts2 e args D1 IH1 D2 IH2 r m Hr Hlen.
     simpl in Hlen. apply le_S_level in Hlen. destruct Hlen as (m' & -> & Hlen).
